@@ -290,7 +290,7 @@ func runC02(c *Ctx) {
 	rulePairedEdges(c, "C02.6")
 	ruleRefTable(c, "C02.6")
 	ruleIsWaitTable(c, "C02.6")
-	ruleNoEarlyExit(c, "C02.6", "(*Graph).buildPoolStmtsSimple", "generateStmts", "(*InjectorChainStmt).Stmt")
+	ruleNoEarlyExit(c, "C02.6", "(*Graph).buildPoolStmtsSimple", "generateStmts", "(*InjectorChainStmt).Stmt#emits")
 
 	ruleTypeIdentity(c, "C02.7", genPkg)
 	ruleSetVariableInitializer(c, "C02.9")
